@@ -96,13 +96,10 @@ pub fn is_unplannable_site(s: u32) -> bool {
     )
 }
 
+/// sites inside the "I/O timer armed, coroutine not yet stored" window (known finding D2io); the
+/// deadline is computed at the start of add_timer, so the list/heap sites inside it count as well
 pub fn is_armed_site(s: u32) -> bool {
-    // the deadline is computed at the start of add_timer: every site from there to the
-    // publication of the coroutine lies in the D2 window
-    if matches!(
-        s,
-        site::PARK_SUB_ARMED | site::LIST_PUSH_SWAPPED | site::LIST_PUSH_LINKED | site::TL_INSTALL_BH | site::TT_ADD_BEFORE_WAKE | site::EP_ADD_TIMER_PUSHED
-    ) {
+    if matches!(s, site::LIST_PUSH_SWAPPED | site::LIST_PUSH_LINKED | site::TL_INSTALL_BH | site::EP_ADD_TIMER_PUSHED) {
         return true;
     }
     // IO_x_SUB_ARMED = 201, 204, ... 234
